@@ -181,7 +181,12 @@ func parseBack(w *sup.W, elems []string) (refdl.Block, error) {
 // ---- corpus --------------------------------------------------------------------------------------------
 
 // printable leaves: no string sets, no parameters that expand to them
-var c15Leaves = []gram.Leaf{gram.LVarX, gram.LInt, gram.LStr, gram.LDate, gram.LBytes, gram.LBool, gram.LSet, gram.LParam, gram.L(`""`, rx.Str("")), gram.L("hex:", rx.Bytes([]byte{})), gram.L("0", rx.Int(0)), gram.L("1970-01-01T00:00:00Z", rx.Date(0)), gram.L("$query", rx.Var("query")), gram.L("$0", rx.Var("0"))}
+var c15Leaves = []gram.Leaf{gram.LVarX, gram.LInt, gram.LStr, gram.LDate, gram.LBytes, gram.LBool, gram.LSet, gram.LParam, gram.L(`""`, rx.Str("")), gram.L("hex:", rx.Bytes([]byte{})), gram.L("0", rx.Int(0)), gram.L("1970-01-01T00:00:00Z", rx.Date(0)), gram.L("$query", rx.Var("query")), gram.L("$0", rx.Var("0")),
+	// far-future dates ("never expires"), strings with characters that are special to printers but not to the grammar
+	gram.L("9999-12-31T23:59:59Z", rx.Date(253402300799)), gram.L("2300-01-01T00:00:00Z", rx.Date(10413792000)),
+	gram.L(`"100%"`, rx.Str("100%")), gram.L(`"%d %s %v"`, rx.Str("%d %s %v")), gram.L(`"a, b) <- c("`, rx.Str("a, b) <- c(")), gram.L(`"check if x or y"`, rx.Str("check if x or y")), gram.L(`"[1, 2]"`, rx.Str("[1, 2]")),
+	gram.L("9223372036854775807", rx.Int(9223372036854775807)), gram.L("hex:00ff", rx.Bytes([]byte{0, 255})), gram.L("false", rx.Bool(false)), gram.L("[true]", rx.SetOf(rx.Bool(true))),
+}
 
 type c15Elem struct {
 	toks   []string
@@ -229,6 +234,17 @@ func c15Elements(c *sup.Ctx) []c15Elem {
 			p.Params(pm)
 			add(p.Tokens(), pm)
 		}
+	}
+	for _, l := range c15Leaves[8:] {
+		if l.Val.K == rx.KVar {
+			continue
+		}
+		// as a fact term, in a rule head, in a rule body and in a check
+		add(gram.Pred{Name: "lit", Terms: []gram.Leaf{l, gram.LInt}}.Tokens(), nil)
+		hb := gram.Pred{Name: "b", Terms: []gram.Leaf{gram.LVarX, l}}
+		add(gram.RuleToks(gram.Pred{Name: "hl", Terms: []gram.Leaf{l, gram.LVarX}}, gram.Body{{P: &px}}), nil)
+		add(gram.RuleToks(gram.Pred{Name: "hl", Terms: []gram.Leaf{gram.LVarX}}, gram.Body{{P: &hb}}), nil)
+		add(gram.QueriesToks("check if", []gram.Body{{{P: &hb}}, {{P: &px}}}), nil)
 	}
 	p1 := gram.Pred{Name: "b", Terms: []gram.Leaf{gram.LVarX, gram.LStr}}
 	p2 := gram.Pred{Name: "read", Terms: []gram.Leaf{gram.LVarY, gram.LVarX}}
